@@ -792,7 +792,7 @@ static struct expr *
 builtinfunc(struct scope *s, enum builtinkind kind)
 {
 	struct expr *e, *toeval;
-	struct type *t;
+	struct type *t, *other;
 	struct member *m;
 	char *name;
 	unsigned long long offset;
@@ -828,6 +828,8 @@ builtinfunc(struct scope *s, enum builtinkind kind)
 		break;
 	case BUILTINOFFSETOF:
 		t = typename(s, NULL, NULL);
+		if (!t)
+			error(&tok.loc, "expected type name");
 		expect(TCOMMA, "after type name");
 		name = expect(TIDENT, "after ','");
 		if (t->kind != TYPESTRUCT && t->kind != TYPEUNION)
@@ -842,8 +844,13 @@ builtinfunc(struct scope *s, enum builtinkind kind)
 		break;
 	case BUILTINTYPESCOMPATIBLEP:
 		t = typename(s, NULL, NULL);
+		if (!t)
+			error(&tok.loc, "expected type name");
 		expect(TCOMMA, "after type name");
-		e = mkconstexpr(&typeint, typecompatible(t, typename(s, NULL, NULL)));
+		other = typename(s, NULL, NULL);
+		if (!other)
+			error(&tok.loc, "expected type name");
+		e = mkconstexpr(&typeint, typecompatible(t, other));
 		break;
 	case BUILTINUNREACHABLE:
 		e = mkexpr(EXPRBUILTIN, &typevoid, NULL);
@@ -858,6 +865,8 @@ builtinfunc(struct scope *s, enum builtinkind kind)
 			e->base = mkunaryexpr(TBAND, e->base);
 		expect(TCOMMA, "after va_list");
 		e->type = typename(s, &e->qual, &toeval);
+		if (!e->type)
+			error(&tok.loc, "expected type name");
 		e->toeval = toeval;
 		break;
 	case BUILTINVACOPY:
